@@ -27,7 +27,9 @@ type alt struct {
 	Detail string // leaf path + mutation, key used, …
 	Items  []any
 	AltIdx int
-	Sub    *submission
+	// AltIdxs lists all altered items of a coordinated multi-item alteration (nil: just AltIdx).
+	AltIdxs []int
+	Sub     *submission
 	// MustAdmit marks a fresh, fully valid submission (vacuity guard).
 	MustAdmit bool
 }
@@ -569,6 +571,34 @@ func (e *env) runVAPI(c *kit.Case, w *world, tg target) {
 		}
 	}
 
+	// 6. coordinated multi-item alterations: several validators with a duty in the same slot (and,
+	// where the object allows it, the same signing root) whose individual defects cancel in any
+	// aggregate / sum check: signatures swapped or rotated between validators, key shares shifted
+	// by +d / -d. Every item is invalid under its own claimed share.
+	if tg.Multi && !tg.Ignored && len(w.co) >= 3 {
+		coPerm := rng.Perm(len(w.co))
+		cv := []*valInfo{w.co[coPerm[0]], w.co[coPerm[1]], w.co[coPerm[2]]}
+		raws, err := w.cobuild(k, cv, rng)
+		if err != nil {
+			r.Inconclusive("%s: co-slot build: %v", tg.Name, err)
+		} else {
+			var coItems []any
+			for i, raw := range raws {
+				it := vapiForm(k, cv[i], raw)
+				if err := w.sign(it, cv[i].Shares[share], "", nil); err != nil {
+					r.Inconclusive("%s: co-slot sign: %v", tg.Name, err)
+				}
+				coItems = append(coItems, it)
+			}
+			secrets := []tbls.PrivateKey{cv[0].Shares[share], cv[1].Shares[share], cv[2].Shares[share]}
+			alts = append(alts, &alt{Class: "valid-coslot-batch", Detail: "three validators, same slot", Items: deepCopy(coItems), Sub: &submission{agreed: defAgreed}, MustAdmit: true})
+			alts = append(alts, &alt{Class: "valid-coslot-batch", Detail: "two validators, same slot", Items: deepCopy(coItems[:2]), Sub: &submission{agreed: defAgreed}, MustAdmit: true})
+			for _, ma := range w.multiAlterations(rng, coItems, secrets) {
+				alts = append(alts, &alt{Class: ma.Class, Detail: ma.Detail, Items: ma.Items, AltIdx: ma.AltIdxs[0], AltIdxs: ma.AltIdxs, Sub: &submission{agreed: defAgreed}})
+			}
+		}
+	}
+
 	// run: a few submissions at a time on the same component
 	var wg sync.WaitGroup
 	sem := make(chan struct{}, 3)
@@ -607,23 +637,62 @@ func (e *env) runVAPI(c *kit.Case, w *world, tg target) {
 // judgeVAPI classifies, runs and judges one submission. Returns (mustReject, validAdmitted).
 func (e *env) judgeVAPI(c *kit.Case, w *world, tg target, k kind, a *alt, baseInfo sigInfo, baseV *valInfo) (bool, bool) {
 	r := e.r
-	item := a.Items[a.AltIdx]
-	info, ierr := w.inspect(item)
-	claimed := w.claimedValidator(a.Sub, item)
-
+	type altItem struct {
+		item    any
+		info    sigInfo
+		ierr    error
+		claimed *valInfo
+	}
+	idxs := a.AltIdxs
+	multi := len(idxs) > 0
+	if !multi {
+		idxs = []int{a.AltIdx}
+	}
+	var altItems []altItem
 	var reasons []string
-	switch {
-	case a.MustAdmit, tg.Ignored:
-	case ierr != nil:
-		reasons = append(reasons, "unparseable")
-	case claimed == nil:
-		reasons = append(reasons, "validator-unknown")
-	case !claimed.InCluster:
-		reasons = append(reasons, "validator-not-in-cluster")
-	case !w.verifies(info, claimed.PubShares[w.shareIdx]):
-		reasons = w.diffReasons(info, baseInfo, claimed, baseV, w.shareIdx, w.shareIdx)
-	case !w.innerProofValid(item, claimed):
-		reasons = append(reasons, "inner-proof-invalid")
+	addReason := func(rs ...string) {
+		for _, x := range rs {
+			dup := false
+			for _, y := range reasons {
+				dup = dup || x == y
+			}
+			if !dup {
+				reasons = append(reasons, x)
+			}
+		}
+	}
+	for _, ix := range idxs {
+		ai := altItem{item: a.Items[ix]}
+		ai.info, ai.ierr = w.inspect(ai.item)
+		ai.claimed = w.claimedValidator(a.Sub, ai.item)
+		switch {
+		case a.MustAdmit, tg.Ignored:
+		case ai.ierr != nil:
+			addReason("unparseable")
+		case ai.claimed == nil:
+			addReason("validator-unknown")
+		case !ai.claimed.InCluster:
+			addReason("validator-not-in-cluster")
+		case !w.verifies(ai.info, ai.claimed.PubShares[w.shareIdx]):
+			if multi {
+				addReason("invalid-under-claimed-share")
+			} else {
+				addReason(w.diffReasons(ai.info, baseInfo, ai.claimed, baseV, w.shareIdx, w.shareIdx)...)
+			}
+		case !w.innerProofValid(ai.item, ai.claimed):
+			addReason("inner-proof-invalid")
+		}
+		altItems = append(altItems, ai)
+	}
+	item, info, ierr, claimed := altItems[0].item, altItems[0].info, altItems[0].ierr, altItems[0].claimed
+	if multi && len(reasons) > 0 {
+		// evidence: do the defects of this batch really cancel in a sum check (same signing root,
+		// aggregate signature verifies against the claimed pubshares although no item does)?
+		if w.batchSumVerifies(a.Sub, a.Items) {
+			r.Count("multi_batches_cancelling_in_aggregate", 1)
+		} else {
+			r.Count("multi_batches_not_cancelling", 1)
+		}
 	}
 	if tg.Proposal && !a.MustAdmit && ierr == nil {
 		ag := a.Sub.agreed[info.Slot]
@@ -665,7 +734,7 @@ func (e *env) judgeVAPI(c *kit.Case, w *world, tg target, k kind, a *alt, baseIn
 		return map[string]any{
 			"target": tg.Name, "kind": k.String(), "class": a.Class, "detail": a.Detail, "classification": cls,
 			"n": w.n, "k": w.k, "node_share_idx": w.shareIdx, "signer": baseV.Name, "claimed_validator": cv,
-			"error": errStr, "panic": res.Panic, "admitted": adm, "alt_index": a.AltIdx, "items": jsonOrString(a.Items),
+			"error": errStr, "panic": res.Panic, "admitted": adm, "alt_index": a.AltIdx, "alt_indices": a.AltIdxs, "items": jsonOrString(a.Items),
 		}
 	}
 
@@ -677,7 +746,13 @@ func (e *env) judgeVAPI(c *kit.Case, w *world, tg target, k kind, a *alt, baseIn
 		if !ok {
 			continue
 		}
-		if ierr == nil && ai.Sig == info.Sig && ai.Root == info.Root {
+		for _, it := range altItems {
+			if it.ierr != nil || ai.Sig != it.info.Sig || ai.Root != it.info.Root {
+				continue
+			}
+			if multi && (it.claimed == nil || it.claimed.Core != ad.PubKey) {
+				continue
+			}
 			reached = true
 		}
 	}
